@@ -202,14 +202,40 @@ def run(ctx: Ctx):
             # failed (fidelity, coordinate) pairs, located on the grids of the failure-free run (the grids do not depend on outputs)
             fk = {key_of({**run_, 'grids': base['grids']}, e) for e in run_['log'] if e['failed']}
             # the recorded finding: the FIRST point of some fidelity (its coordinate 0..0) failed, so nothing exists to impute from
-            first_of_fidelity = any(all(c == 0 for c in coord) for _, coord in fk)
+            # (measured on the unchanged tree: only the very first evaluation of the component - zero fidelity, coordinate 0..0, when no
+            # interpolator state exists yet - leads to the recorded failure; the first point of a higher fidelity is contained like any other)
+            first_of_fidelity = any(all(c == 0 for c in coord) and all(a_ == 0 for a_ in alpha_) for alpha_, coord in fk)
+            # F4 family: a fidelity ALL of whose evaluations failed has no data at all, nothing can be imputed and predicting raises
+            by_alpha = {}
+            for e_ in run_['log']:
+                by_alpha.setdefault(e_['alpha'], []).append(e_['failed'])
+            dead_fidelity = any(all(v_) for v_ in by_alpha.values())
             if run_['raised']:
-                ctx.violate('C14:first-evaluation-of-a-fidelity-fails' if first_of_fidelity else 'C14:training-raises-after-failure',
+                ctx.violate('C14:first-evaluation-of-a-fidelity-fails' if first_of_fidelity else
+                            'C14:every-evaluation-of-a-fidelity-failed' if dead_fidelity else 'C14:training-raises-after-failure',
                             f'training with evaluation(s) {sorted(fail_at)} failing ({kind}, {mode}; failed points {sorted(fk)}) raised {run_["raised"]}', case)
                 continue
             # index sets and weights are those of the failure-free run
             if run_['sets'] != base['sets'] or run_['order'] != base['order']:
                 ctx.violate('C14:sets-or-weights-change', 'index sets / weights differ from the failure-free run for the same activations', case)
+            # the interpolator states hold grids and weights only: they are those of the failure-free run
+            bst = {(tuple(a_), tuple(b_)): st_ for a_, b_, st_ in base['comp'].misc_states}
+            for a_, b_, st_ in run_['comp'].misc_states:
+                b0 = bst.get((tuple(a_), tuple(b_)))
+                if b0 is None:
+                    continue
+                g1 = {str(v_): [float(t_) for t_ in g_] for v_, g_ in st_.x_grids.items()}; g0 = {str(v_): [float(t_) for t_ in g_] for v_, g_ in b0.x_grids.items()}
+                w1 = {str(v_): [float(t_) for t_ in g_] for v_, g_ in st_.weights.items()}; w0 = {str(v_): [float(t_) for t_ in g_] for v_, g_ in b0.weights.items()}
+                if g1 != g0 or w1 != w0:
+                    # recorded finding (F4 family): an index created in the data direction while NO evaluation at its fidelity has succeeded yet
+                    # (the first point of that fidelity failed, nothing to impute from) keeps the grid of the index it was created from
+                    prefix = bool(g1) and all(len(g1[v_]) >= 1 and g1[v_] == g0.get(v_, [])[:len(g1[v_])] for v_ in g1) and set(g1) == set(g0)
+                    first_failed = any(tuple(al_) == tuple(a_) and all(c_ == 0 for c_ in co_) for al_, co_ in fk)
+                    if prefix and first_failed:
+                        ctx.violate('C14:index-built-while-its-fidelity-had-no-valid-data', f'index {(tuple(a_), tuple(b_))} keeps the grids {g1} (failure-free: {g0}): '
+                                    f'it was built when every evaluation at fidelity {tuple(a_)} had failed (failed points {sorted(fk)})', case); break
+                    ctx.violate('C14:interpolator-state-differs-from-failure-free-run', f'the interpolator state of index {(tuple(a_), tuple(b_))} has grids {g1} / '
+                                f'weights {w1}; failure-free: {g0} / {w0} (failed points {sorted(fk)})', case); break
             # in executor mode the call counter follows the completion order: identify failures by (fidelity, point)
             failed_keys = {key_of(run_, e) for e in run_['log'] if e['failed']}
             base_by_key = {key_of(base, e): e for e in base['log']}
